@@ -1,3 +1,4 @@
+#include <sys/wait.h>
 /* evmodel.c -- virtual-time model of the libev 4.33 subset used by echse
  *
  * Linked INSTEAD of -lev.  Struct layouts and macros come from the real
@@ -567,6 +568,12 @@ feed_signals_and_children(struct ev_loop *l)
 			for (int i = l->nchilds - 1; i >= 0; i--) {
 				ev_child *w = l->childs[i];
 				if (pass == 0 ? w->pid != pid : w->pid != 0) {
+					continue;
+				}
+				/* child_reap(): stops and continuations go to
+				 * watchers initialised with the trace flag only */
+				if ((WIFSTOPPED(st) || WIFCONTINUED(st)) &&
+				    !(w->flags & 1)) {
 					continue;
 				}
 				w->priority = EV_MAXPRI;
